@@ -2,37 +2,6 @@
 // U2 prelude: type stand-ins and boundary stubs for OsIpcSender::send.
 // ---------------------------------------------------------------------------
 
-// std::cell::Cell: interior mutability has no functional spec.  Reads return an
-// uninterpreted function of the cell; no function verified here calls Cell::set
-// (the extractor refuses `.set(`).
-#[verifier::external_type_specification]
-#[verifier::external_body]
-#[verifier::reject_recursive_types(T)]
-pub struct ExCell<T: ?Sized>(std::cell::Cell<T>);
-pub uninterp spec fn cell_val<T>(c: &std::cell::Cell<T>) -> T;
-pub assume_specification<T: Copy> [std::cell::Cell::<T>::get] (c: &std::cell::Cell<T>) -> (r: T)
-    ensures r == cell_val(c);
-
-// field names as in the repository (src/platform/unix/mod.rs); `nosync_marker` (PhantomData) omitted
-pub struct SharedFileDescriptor(pub c_int);
-pub struct OsIpcSender { pub fd: std::sync::Arc<SharedFileDescriptor> }
-pub struct OsIpcReceiver { pub fd: std::cell::Cell<c_int> }
-pub struct BackingStore { pub fd: c_int }
-impl BackingStore { pub fn fd(&self) -> (r: c_int) ensures r == self.fd { self.fd } }
-pub struct OsIpcSharedMemory { pub store: BackingStore }
-pub enum OsIpcChannel { Sender(OsIpcSender), Receiver(OsIpcReceiver) }
-impl OsIpcChannel {
-    pub open spec fn spec_fd(&self) -> c_int {
-        match *self { OsIpcChannel::Sender(s) => s.fd.0, OsIpcChannel::Receiver(r) => cell_val(&r.fd) }
-    }
-    // body is `match *self { Sender(ref s) => s.fd.0, Receiver(ref r) => r.fd.get() }` in the repository
-    #[verifier::external_body]
-    pub fn fd(&self) -> (r: c_int) ensures r == self.spec_fd() { unimplemented!() }
-}
-
-pub open spec fn chan_fds(c: Seq<OsIpcChannel>) -> Seq<c_int> { c.map(|i: int, x: OsIpcChannel| x.spec_fd()) }
-pub open spec fn region_fds(c: Seq<OsIpcSharedMemory>) -> Seq<c_int> { c.map(|i: int, x: OsIpcSharedMemory| x.store.fd) }
-
 // ---- boundary stubs: the libc calls, over the ghost kernel ----
 
 // socketpair(AF_UNIX, SOCK_SEQPACKET|SOCK_CLOEXEC): two fresh descriptors, an empty queue
